@@ -25,6 +25,12 @@
 #endif
 struct Elem { int64_t val; int64_t tok; };
 static var Elem = Cello(Elem);
+/* a WIDER probe type (24-byte payload) sharing Elem's prefix: used as value type where the unit under test handles
+ * keys and values of different sizes (a size taken from the wrong one of the two then loses `extra`);
+ * a well-formed ElemV always has extra == ELEMV_TAG(val) */
+struct ElemV { int64_t val; int64_t tok; int64_t extra; };
+static var ElemV = Cello(ElemV);
+#define ELEMV_TAG(v) ((int64_t)(v) ^ 0x5A5A5A5A)
 uint64_t ELEM_H[ELEM_D];
 int elem_tok_state[ELEM_MAXTOK];
 int elem_next_tok = 1;
@@ -46,6 +52,7 @@ var verif_assign(var dst, var src) {
   if (d->tok == 0) { d->tok = elem_issue(); }
   else { V_ASSERT(elem_is_live(dst), "ledger: assignment over an element that was already finalised"); }
   d->val = s->val;
+  if (((struct Header*)dst - 1)->type == ElemV) ((struct ElemV*)dst)->extra = ((struct ElemV*)src)->extra;
   return dst;
 }
 var verif_destruct(var x) {
